@@ -229,6 +229,15 @@ def check(repo: Repo, run: Run) -> None:
               and _empty_dict(e.value) and not e.pc and e.alias is None]
     fresh = {e.key for e in stores}          # an alias or a chained assignment `self.a = self.b = {}` is not fresh
     for t in ("on_going_events", "on_going_traces"):
+        made = [e for e in init.effects if e.kind == "attr-store" and (e.path or e.base) == SELF and e.key == t
+                and e.value is not None]
+        if made and all(e.value.op in ("new", "call") and not _empty_dict(e.value)
+                        and not (e.value.op == "call" and e.value.a[0].op == "global"
+                                 and e.value.a[0].a[0] in ("collections.defaultdict", "collections.OrderedDict")) for e in made):
+            # the open windows are kept in some other structure (an object of a helper class, a flat list ...): the K rules
+            # describe the {tid: {eventid: [records]}} tables and say nothing about it
+            raise AnalysisError(f"the window table self.{t} is created as {sym.pretty(made[0].value)[:60]}: a representation of the "
+                                f"open windows other than the {{tid: {{eventid: [records]}}}} tables the K rules are written for")
         run.ob("K6", MOD, "TracesParser.__init__", f"{t} is a fresh dict", t in created and t in fresh,
                f"self.{t} is not created as its own empty dict in __init__: the two pairing domains share windows",
                nontrivial=False)
@@ -249,6 +258,7 @@ def check(repo: Repo, run: Run) -> None:
         tid = T("attr", (ev, "tid"))
         eid = T("attr", (ev, "eventid"))
         win = T("sub", (st, tid))
+        _normalise_none_guards(rec, st, tid)
         # K1: every first key on the state table is event.tid
         bad = []
         for p in rec.pops:
@@ -278,6 +288,10 @@ def check(repo: Repo, run: Run) -> None:
             if sym.root_of(pth) != st:
                 continue
             if e.kind == "sub-store":
+                if e.value.op == "new":
+                    raise AnalysisError(f"{name} stores an object of {e.value.a[0].rsplit('.', 1)[1]} into the window table: a "
+                                        f"representation of the open windows other than the {{tid: {{eventid: [records]}}}} tables "
+                                        f"the K rules are written for")
                 ok = e.value.op in ("dict", "list") and not e.value.a[0]
                 run.ob("K2", MOD, f"TracesParser.{name}", f"store {sym.pretty(pth)[:40]}[{sym.pretty(e.key)[:30]}]", ok,
                        f"{sym.pretty(e.value)[:60]} is stored into the window table; only a fresh [] / {{}} may be",
@@ -608,6 +622,46 @@ def check(repo: Repo, run: Run) -> None:
         run.ob("K10", MOD, f"TracesParser.{mname}", "leaves the window tables alone", not ws,
                "" if not ws else f"TracesParser.{mname} performs {ws[0][0].kind} {ws[0][0].key} on self.{ws[0][1]} itself",
                nontrivial=bool(ws), line=mnode.lineno)
+
+
+def _normalise_none_guards(rec, st: T, tid: T) -> None:
+    """`w = state.get(tid)` ... `if w is None` is the membership test `tid not in state` (the table holds window dicts, never
+    None - K2), and where it is known not to be None `w` is `state[tid]`: the path conditions of the record are rewritten to the
+    one spelling the rules are written in."""
+    if getattr(rec, "_c04_none_norm", False):
+        return
+    rec._c04_none_norm = True
+    gets = (T("call", (T("attr", (st, "get")), (tid,), ())), T("call", (T("attr", (st, "get")), (tid, const(None)), ())))
+
+    def rw(t: T) -> T:
+        def go(x):
+            if isinstance(x, T):
+                if x.op == "cmp" and x.a[0] in ("is", "is not") and const(None) in (x.a[1], x.a[2]):
+                    other = x.a[2] if x.a[1] == const(None) else x.a[1]
+                    if strip_mut(other) in gets:
+                        return T("cmp", ("not in" if x.a[0] == "is" else "in", tid, st))
+                if x in gets:
+                    return T("sub", (st, tid))
+                na = go(x.a)
+                return x if na is x.a else T(x.op, na)
+            if isinstance(x, tuple):
+                new = tuple(go(e) for e in x)
+                return x if all(n is o for n, o in zip(new, x)) else new
+            return x
+        return go(t)
+
+    def rw_pc(pc):
+        return tuple((rw(c), p_) for c, p_ in pc)
+    if not any(g in set(sym.walk(c)) for coll in (rec.effects, rec.returns, rec.pops, rec.calls) for o in coll for c, _ in o.pc
+               for g in gets):
+        return
+    for coll in (rec.effects, rec.returns, rec.pops, rec.calls):
+        for o in coll:
+            o.pc = rw_pc(o.pc)
+    for lr in rec.loops.values():
+        if lr.entry_pc is not None:
+            lr.entry_pc = rw_pc(lr.entry_pc)
+        lr.exits = [(k, rw_pc(pc), *rest) for k, pc, *rest in lr.exits]
 
 
 def _pc_at_loop(rec, lr):
